@@ -50,6 +50,10 @@ class Driver:
         self.features = set()
         self.counts = {}
         self.lib.vf_trace_dump.restype = ctypes.c_char_p
+        if backend == "python" and hasattr(self.lib, "vf_set_nul"):
+            # a Python str carries its length: std::string results may contain NUL bytes (the C back-end hands
+            # strings out as char const *, which cannot)
+            self.lib.vf_set_nul(1)
         self.lib.vf_iid.restype = ctypes.c_int
         self.lib.vf_iid.argtypes = [ctypes.c_void_p]
         self.classes = {c["qname"]: c for c in model["classes"]}
